@@ -55,7 +55,8 @@ def run_shard(desc, R, tier):
                     eval_point({'x': x, 'm': m, 'NFFT': nf, 'fs': 1.0}, R)
     else:
         _, N, cplx = desc
-        fam = (A.gen_cplx(N) + A.tones_cplx(N)) if cplx else (A.gen_real(N) + A.tones_real(N) + A.pcm(N))
+        fam = (A.gen_cplx(N) + A.tones_cplx(N)) if cplx else (A.gen_real(N) + A.tones_real(N) + A.pcm(N) + A.pcm64(N))
+        fam = fam + A.scaled(fam) + A.strided(fam)
         for name, x in fam:
             for m in range(2, min(N // 2, 16) + 1):
                 for nf in sorted(set([2 * m, 2 * m + 1, 4 * m, 4 * m + 3, 64])):
@@ -94,8 +95,10 @@ def eval_point(pt, R):
     R.point(pt)
     R.calls()
     try:
-        psd, A_, k_ = spectrum.minvar(x, m, sampling=fs, NFFT=nf)
+        xin = x.copy()
+        psd, A_, k_ = spectrum.minvar(xin, m, sampling=fs, NFFT=nf)
         psd = np.asarray(psd)
+        R.check(np.array_equal(xin, x), 'input_unchanged', feats, pt, xin, x, 'minvar modified its input array')
     except Exception as e:
         R.viol('quadratic_form', dict(feats, exc=type(e).__name__), pt, repr(e), ref, 'minvar raised inside its domain')
         return
